@@ -37,6 +37,14 @@ from thermosteam import equilibrium as eq
 from engine.api import group
 from engine.sx import tmo_world as W
 
+# the VCs are nonlinear (products / quotients of model values): try a fresh one-shot solver first (engine opt-in, same
+# verdicts) and hand branch-feasibility queries over to it early (this process only), as C02 does
+os.environ.setdefault('VERIF_PROVE_FRESH_MS', '5000')
+os.environ.setdefault('VERIF_PROVE_FRESH_ORDER', 'default,nlsat')
+if 'VERIF_BRANCH_TIMEOUT_MS' not in os.environ:
+    from engine.sx import sym as _sym
+    _sym.BRANCH_TIMEOUT_MS = 400
+
 bp_mod = sys.modules['thermosteam.equilibrium.bubble_point']
 dp_mod = sys.modules['thermosteam.equilibrium.dew_point']
 
